@@ -15,7 +15,7 @@ import (
 )
 
 var recSM = kit.NewRecorder("C08", "statemachine",
-	"supervisor spec = type {one-for-one, all-for-one, rest-for-one, simple-one-for-one} x strategy {transient, temporary, permanent} x KeepOrder x significant flags x auto-shutdown x 1-4 children (intensity set high); history of <= 14 events from {a running child dies with normal/shutdown/abnormal reason, a child that was told to stop finishes (any order), a child that was told to stop dies with another reason, StartChild, AddChild, EnableChild, DisableChild of a running child, exit signal from a non-child}; the harness plays handleAction and the children; "+
+	"supervisor spec = type {one-for-one, all-for-one, rest-for-one, simple-one-for-one} x strategy {transient, temporary, permanent} x KeepOrder x significant flags x auto-shutdown x 1-4 children (intensity set high); history of <= 14 events from {a running child dies with normal/shutdown/abnormal reason, a child that was told to stop finishes (any order), a child that was told to stop dies with another reason, StartChild, AddChild, EnableChild, DisableChild of a running child (also in the middle of an all/rest-for-one restart or shutdown, where a refused call must change nothing), exit signal from a non-child}; the harness plays handleAction and the children; "+
 		"oracle: reference model written from the documented rules, compared at every quiescent point (no stop pending): supervisor alive/terminated with the prescribed reason, must-run children running with a fresh pid, must-stay-down children down, Children() view == environment truth (no unnoticed death, no orphan, disabled flag), start actions in ascending spec order, KeepOrder stops one at a time in descending order, no panic, only action types handleAction knows; "+
 		"non-trivial = a death was delivered while a restart or shutdown was in progress, or out of stop order; distinct by (spec, history)")
 
@@ -407,6 +407,8 @@ func (r *runner) event(t chooser) bool {
 	}
 	if len(pending) == 0 {
 		kinds = append(kinds, 2) // management call
+	} else if (r.m.inRestart || r.m.inShutdown) && (r.c.typ == act.SupervisorTypeAllForOne || r.c.typ == act.SupervisorTypeRestForOne) {
+		kinds = append(kinds, 6) // management call while the group strategy is at work: refused or carried out, never half of it
 	}
 	if !t.weighted() || t.pick("foreign", 6) == 5 {
 		kinds = append(kinds, 3) // exit signal from a non-child
@@ -461,7 +463,12 @@ func (r *runner) event(t chooser) bool {
 		r.checkOrder(ev)
 		r.quiescent(ev)
 	case 2:
-		r.management(t)
+		r.management(t, false)
+	case 6:
+		r.management(t, true)
+		if r.excluded {
+			return false
+		}
 	case 3:
 		reason := errors.New("foreign-exit")
 		r.hist = append(r.hist, "foreign-exit")
@@ -475,7 +482,7 @@ func (r *runner) event(t chooser) bool {
 	return true
 }
 
-func (r *runner) management(t chooser) {
+func (r *runner) management(t chooser, active bool) {
 	m := r.m
 	op := t.pick("mgmt", 4)
 	i := t.pick("mgmt_spec", len(m.specs))
@@ -483,6 +490,46 @@ func (r *runner) management(t chooser) {
 	var a act.VerifAction
 	var err error
 	ev := ""
+	if active {
+		// A call made while a restart or the shutdown is in progress. The group strategies refuse
+		// it (ErrSupervisorStrategyActive); a refused call must leave everything as it was - the
+		// checks after the event compare the supervisor's view and the children with the
+		// unchanged model.
+		switch op {
+		case 0:
+			ev = fmt.Sprintf("StartChild(%s)", s.name)
+			a, err = r.e.Sup.ChildSpec(s.name)
+		case 1:
+			if len(m.specs) >= 6 {
+				return
+			}
+			ev = "AddChild(refused-name)"
+			a, err = r.e.Sup.ChildAddSpec(act.SupervisorChildSpec{Name: "refusedname", Factory: func() gen.ProcessBehavior { return nil }})
+		case 2:
+			ev = fmt.Sprintf("EnableChild(%s)", s.name)
+			a, err = r.e.Sup.ChildEnable(s.name)
+		case 3:
+			if s.exp != expRun || !s.enabled {
+				return
+			}
+			ev = fmt.Sprintf("DisableChild(%s)", s.name)
+			a, err = r.e.Sup.ChildDisable(s.name)
+		}
+		if err == nil {
+			// (not refused: how a call that is carried out in the middle of a restart combines with it
+			// is not specified; the history ends here)
+			_ = a
+			r.hist = append(r.hist, ev+"=accepted-during-restart")
+			r.excluded = true
+			return
+		}
+		r.nontriv = true
+		ev += "=refused"
+		r.hist = append(r.hist, ev)
+		r.checkOrder(ev)
+		r.quiescent(ev)
+		return
+	}
 	switch op {
 	case 0: // StartChild
 		ev = fmt.Sprintf("StartChild(%s)", s.name)
@@ -622,7 +669,6 @@ func TestStateMachine(t *testing.T) {
 	rapid.Check(t, propStateMachine)
 }
 
-
 // TestKnownRFO is the directed replay of the open known finding sigRFO. It reports
 // the finding as re-confirmed only if the implementation still misbehaves.
 func TestKnownRFO(t *testing.T) {
@@ -635,7 +681,7 @@ func TestKnownRFO(t *testing.T) {
 		t.Fatal(err)
 	}
 	pid := func(i int) gen.PID { return e.AliveOf(i)[0].PID }
-	e.Die(pid(1), suplab.ErrAbnormal)         // c1 fails: c2 is told to stop
+	e.Die(pid(1), suplab.ErrAbnormal)        // c1 fails: c2 is told to stop
 	e.Die(pid(0), gen.TerminateReasonNormal) // significant c0 exits normally meanwhile: the supervisor must shut down
 	for _, in := range e.Pending() {
 		e.Die(in.PID, in.StopWith)
